@@ -6011,8 +6011,9 @@ let prog_table =
     ((Ascii (false, false, true, false, true, true, true, false)),
     EmptyString)))))))))))))))))))))))))))))))))))))))))))))))))))))))))))))))))),
     (block ((SFound (AnnotationBegin, Z0)) :: ((SSetStep
-      st_stateMultilineAnnotation) :: ((SRetCall
-      st_stateMultilineAnnotation) :: []))))) :: (((String ((Ascii (true,
+      st_stateMultilineAnnotation) :: ((SIf ((CByte (Npos (XI (XI (XI (XI (XO
+      XH))))))), (block (SRetNil :: [])), SSkip)) :: ((SRetCall
+      st_stateMultilineAnnotation) :: [])))))) :: (((String ((Ascii (true,
     true, false, false, true, true, true, false)), (String ((Ascii (false,
     false, true, false, true, true, true, false)), (String ((Ascii (true,
     false, false, false, false, true, true, false)), (String ((Ascii (false,
@@ -11768,16 +11769,48 @@ let process_context_end st =
            (Z.sub st1.cs_conf.c_cur (Zpos XH))))
   | x -> x
 
+(** val orphan_lexeme : cstate -> lexeme -> cstate cres option **)
+
+let orphan_lexeme st l =
+  match st.cs_cur with
+  | Some _ -> None
+  | None ->
+    (match l.lk with
+     | LKeyword -> None
+     | LParameter ->
+       (match lex_value st l with
+        | Some v ->
+          Some (CErr
+            (core_error st
+              (mkMsg (String ((Ascii (true, false, true, false, false, true,
+                false, false)), (String ((Ascii (true, true, false, false,
+                true, true, true, false)), (String ((Ascii (false, false,
+                false, false, false, true, false, false)), (String ((Ascii
+                (true, false, true, false, false, true, false, false)),
+                (String ((Ascii (true, false, false, false, true, true, true,
+                false)), EmptyString))))))))))
+                ((str jerr_IncorrectParameter) :: ((unquote v) :: []))) l.lb))
+        | None -> Some (CPanic CPLexemeValue))
+     | LAnnotation ->
+       Some (CErr
+         (core_error st (msg1 jerr_AnnotationIsForbiddenForTheDirective) l.lb))
+     | LContextClose -> None
+     | _ ->
+       Some (CErr (core_error st (msg1 jerr_IncorrectDirectiveContext) l.lb)))
+
 (** val core_next : cstate -> lexeme -> cstate cres **)
 
 let core_next st l =
-  match l.lk with
-  | LKeyword -> process_keyword st l
-  | LParameter -> process_parameter st l
-  | LAnnotation -> process_annotation st l
-  | LContextOpen -> process_context_begin st
-  | LContextClose -> process_context_end st
-  | _ -> process_body st l
+  match orphan_lexeme st l with
+  | Some r -> r
+  | None ->
+    (match l.lk with
+     | LKeyword -> process_keyword st l
+     | LParameter -> process_parameter st l
+     | LAnnotation -> process_annotation st l
+     | LContextOpen -> process_context_begin st
+     | LContextClose -> process_context_end st
+     | _ -> process_body st l)
 
 (** val lexeme_error : cstate -> lexeme -> cmsg -> cerr **)
 
@@ -12166,34 +12199,66 @@ let rec collect_macro roots kept ms =
           | CFuel -> CFuel)
     else collect_macro rest (d :: kept) ms
 
-(** val find_paste : nat -> bytes -> dir -> cerr option **)
+(** val paste_nodes : nat -> dir -> dir list **)
 
-let rec find_paste fuel name d =
+let rec paste_nodes fuel d =
   match fuel with
-  | O -> None
+  | O -> []
   | S fuel' ->
     if N.eqb d.d_kind dir_Paste
-    then let n0 = named d KName in
-         if beq n0 []
-         then Some (required_name d)
-         else if beq n0 name
-              then Some (dir_error d (msg1 jerr_RecursionIsProhibited))
-              else None
-    else let rec first = function
-         | [] -> None
-         | c :: r ->
-           (match find_paste fuel' name c with
-            | Some e -> Some e
-            | None -> first r)
-         in first d.d_children
+    then d :: []
+    else flat_map (paste_nodes fuel') d.d_children
 
-(** val check_recursion : nat -> macros -> cerr list **)
+(** val macro_pastes : nat -> dir -> dir list **)
 
-let check_recursion fuel ms =
-  flat_map (fun p ->
-    match find_paste fuel (fst p) (snd p) with
-    | Some e -> e :: []
-    | None -> []) ms
+let macro_pastes fuel m =
+  flat_map (paste_nodes fuel) m.d_children
+
+(** val reaches : nat -> nat -> macros -> bytes -> bytes -> bool **)
+
+let rec reaches fuel depth ms from target =
+  match fuel with
+  | O -> false
+  | S fuel' ->
+    (match macro_lookup ms from with
+     | Some m ->
+       existsb (fun p ->
+         let n0 = named p KName in
+         (||) (beq n0 target)
+           ((&&) (negb (beq n0 [])) (reaches fuel' depth ms n0 target)))
+         (macro_pastes depth m)
+     | None -> false)
+
+(** val paste_verdict :
+    nat -> nat -> macros -> bytes -> dir -> cerr option **)
+
+let paste_verdict fuel depth ms name p =
+  let n0 = named p KName in
+  if beq n0 []
+  then Some (required_name p)
+  else if beq n0 name
+       then Some (dir_error p (msg1 jerr_RecursionIsProhibited))
+       else if reaches fuel depth ms n0 name
+            then Some (dir_error p (msg1 jerr_RecursionIsProhibited))
+            else None
+
+(** val first_some : ('a1 -> 'a2 option) -> 'a1 list -> 'a2 option **)
+
+let rec first_some f = function
+| [] -> None
+| x :: r -> (match f x with
+             | Some y -> Some y
+             | None -> first_some f r)
+
+(** val find_paste : nat -> nat -> macros -> bytes -> dir -> cerr option **)
+
+let find_paste fuel depth ms name m =
+  first_some (paste_verdict fuel depth ms name) (macro_pastes depth m)
+
+(** val check_recursion : nat -> macros -> cerr option **)
+
+let check_recursion depth ms =
+  first_some (fun p -> find_paste (S (length ms)) depth ms (fst p) (snd p)) ms
 
 type xstate = { x_forest : dir list; x_ctx : path option; x_enums : bytes list }
 
@@ -12340,7 +12405,8 @@ let compile_macros enum_check fuel roots =
   | COk a ->
     let (roots', ms) = a in
     (match check_recursion fuel ms with
-     | [] ->
+     | Some e -> XErr e
+     | None ->
        (match expand_list enum_check ms fuel { x_forest = []; x_ctx = None;
                 x_enums = [] } roots' with
         | COk xs ->
@@ -12353,11 +12419,7 @@ let compile_macros enum_check fuel roots =
            | CFuel -> XFuel)
         | CErr e -> XErr e
         | CPanic p -> XPanic p
-        | CFuel -> XFuel)
-     | e :: l ->
-       (match l with
-        | [] -> XErr e
-        | c :: l0 -> XErrOneOf (e :: (c :: l0))))
+        | CFuel -> XFuel))
   | CErr e -> XErr e
   | CPanic p -> XPanic p
   | CFuel -> XFuel
